@@ -241,6 +241,10 @@ pub fn c01(ctx: &mut Ctx) {
             let mut sig = s.signature.clone().into_bytes();
             sig[p] = flip_hex_digit(sig[p]);
             set_signature(&mut c, &s.signature, std::str::from_utf8(&sig).unwrap());
+            if c.uri == s.case.uri && c.headers == s.case.headers {
+                ctx.rep.count("gen.signature_mutation_not_applicable"); // signature is percent-spelled on the wire
+                continue;
+            }
             jobs.push(job(c, Expect::Refuse(Some("SignatureDoesNotMatch")), "c01-sigdigit", must));
         }
         // wrong length, upper case, empty-ish
@@ -250,6 +254,9 @@ pub fn c01(ctx: &mut Ctx) {
             }
             let mut c = s.case.clone();
             set_signature(&mut c, &s.signature, &alt);
+            if c.uri == s.case.uri && c.headers == s.case.headers {
+                continue;
+            }
             jobs.push(job(c, Expect::Refuse(None), "c01-sigshape", must));
         }
         // key: one byte differs
